@@ -33,7 +33,7 @@ def scoped_to(t, o):
     k = o["op"]
     if k in ("retemp", "prepare"):
         return o["t"] == t
-    if k in ("add", "goc", "goi", "pkg"):
+    if k in ("add", "goc", "goi", "pkg", "cexists", "iexists", "new"):
         return o["vm"] == t
     return False
 
@@ -78,8 +78,11 @@ def coq_op(o):
         return "OPrepare %d" % o["t"]
     if k == "add":
         return "OAdd %s %s %s %d" % (coq_vm(o["vm"]), {"c": "KC", "i": "KI", "f": "KF"}[o["kind"]], coq_string(o["name"]), o["file"])
-    if k == "goc":
+    if k in ("goc", "cexists", "new"):
+        # script-level class_exists(N) and `new N` resolve through GetClass/GetOrLoadClass of the context's VM
         return "OGetOrLoadClass %s %s" % (coq_vm(o["vm"]), coq_string(o["name"]))
+    if k == "iexists":
+        return "OGetOrLoadIface %s %s" % (coq_vm(o["vm"]), coq_string(o["name"]))
     if k == "goi":
         return "OGetOrLoadIface %s %s" % (coq_vm(o["vm"]), coq_string(o["name"]))
     if k == "pkg":
@@ -136,7 +139,10 @@ def run_impl(binary, cases):
 
 
 def mk(ops, names=LOOK, consts=CONSTS):
-    return {"names": names, "consts": consts, "cp": CP, "ops": ops}
+    c = {"names": names, "consts": consts, "cp": CP, "ops": ops}
+    if any(o["op"] in ("cexists", "iexists", "new") for o in ops):
+        c["scripts"] = True
+    return c
 
 
 def rand_case(rng, maxlen):
@@ -166,6 +172,11 @@ def rand_case(rng, maxlen):
                 nextfile[0] += 1
                 used.append(f)
             return {"op": "add", "vm": v, "kind": rng.choice("ccif"), "name": name, "file": f, "route": route}
+        if r < 0.64:
+            # script level: class_exists / interface_exists / new on the VM's own context
+            k = rng.choice(["cexists", "iexists", "new"])
+            pool = (["A", "a", "B", "App\\P", "App\\S", "App\\R"] if k != "iexists" else ["A", "a", "App\\Q", "App\\SI", "App\\P"])
+            return {"op": k, "vm": v, "name": rng.choice(pool)}
         if r < 0.85:
             return {"op": rng.choice(["goc", "goc", "goi", "pkg"]), "vm": v,
                     "name": rng.choice(LOOK if rng.random() < 0.5 else ["App\\P", "App\\Q", "App\\R", "App\\S", "App\\p", "App\\SI"])}
@@ -267,11 +278,13 @@ def main(ck):
                   lambda t: {"op": "add", "vm": t, "kind": "f", "name": "A", "file": 20 + t, "route": "parse"},
                   lambda t: {"op": "add", "vm": t, "kind": "i", "name": "a", "file": 30 + t, "route": "direct"},
                   lambda t: {"op": "goc", "vm": t, "name": "App\\P"},
-                  lambda t: {"op": "pkg", "vm": t, "name": "App\\Q"}]
+                  lambda t: {"op": "pkg", "vm": t, "name": "App\\Q"},
+                  lambda t: {"op": "cexists", "vm": t, "name": "A"},
+                  lambda t: {"op": "new", "vm": t, "name": "App\\P"}]
         bodies = [()] + [(a,) for a in ralpha] + [(a, b) for a in ralpha for b in ralpha]
         nreqs = 2 if ck.tier == "quick" else 3
         for combo in itertools.product(bodies, repeat=nreqs):
-            if rng.random() > (0.45 if nreqs == 2 else 0.15):
+            if rng.random() > (0.2 if nreqs == 2 else 0.05):
                 continue
             ops = []
             for t, body in enumerate(combo):
@@ -283,7 +296,7 @@ def main(ck):
         nrand = 400 if ck.tier == "quick" else 12000
         for _ in range(nrand):
             c = rand_case(rng, 40)
-            ts = sorted(set(o["vm"] for o in c["ops"] if o["op"] in ("add", "goc", "goi", "pkg") and o["vm"] >= 0))
+            ts = sorted(set(o["vm"] for o in c["ops"] if o["op"] in ("add", "goc", "goi", "pkg", "cexists", "iexists", "new") and o["vm"] >= 0))
             cases.append((c, rng.choice(ts) if ts else None))
 
     # run every history, and for the chosen t the purged history, on the implementation
@@ -366,7 +379,7 @@ def main(ck):
         b = min(len(ops) // 5 * 5, 40)
         lens[str(b)] = lens.get(str(b), 0) + 1
         # non-trivial: some TempVM operation and some operation on a different VM
-        tv = set(o["vm"] for o in ops if o["op"] in ("add", "goc", "goi", "pkg"))
+        tv = set(o["vm"] for o in ops if o["op"] in ("add", "goc", "goi", "pkg", "cexists", "iexists", "new"))
         if len(tv) >= 2 and any(v >= 0 for v in tv):
             nontriv += 1
     res = {}
